@@ -88,7 +88,7 @@ def hexdump_case(draw):
     if draw(st.booleans()):
         data = bytes((b % 95) + 32 if i % 3 else b for i, b in enumerate(data))
     offset = draw(st.one_of(st.just(0), st.integers(0, 4096), st.sampled_from([0xFFFFFFF0, 1 << 32, (1 << 40) + 5])))
-    prefix = draw(st.sampled_from(["", "", "  ", "> ", "0x", "dead: ", "\t"]))
+    prefix = draw(st.sampled_from(["", "", "  ", "> ", "0x", "dead: ", "\t", "{", "}", "{0}| ", "{{ctx}} ", "%s %d ", "\\x ", "{!r:>4}", "é§ "]))
     colours = ["COLOR_RED", "COLOR_GREEN", "COLOR_BG_BLUE", "COLOR_BG_WHITE", "COLOR_NORMAL", ""]
     pal = draw(st.lists(st.tuples(st.one_of(st.integers(0, 3), st.integers(0, 20), st.sampled_from([0, 8, 16, 17])), st.sampled_from(colours)), max_size=6))
     return {"hexdump": True, "data": data.hex(), "offset": offset, "prefix": prefix, "palette": [list(p) for p in pal]}
